@@ -8,6 +8,7 @@ def keyExpect : String → String
   | "ed25519" => "back=same fp=same jwk=same"
   | "x25519" => "back=same fp=err jwk=na"            -- vdr/key does not resolve an X25519 did:key (limitation, no loss)
   | "bls" => "back=same fp=same jwk=na"
+  | "k256" => "back=same fp=na jwk=same"               -- secp256k1 has no did:key codec; only the JWK form is driven
   | _ => "back=same fp=same jwk=same"
 
 def hasBigNumber (ds : List (String × String × Bool)) : Bool := ds.all (·.2.2) && !ds.isEmpty
@@ -36,7 +37,9 @@ def judge (input impl : String) : String × String × String :=
   | "key" :: kt :: _ =>
     let exp := keyExpect kt
     let obs := " ".intercalate ((impl.splitOn " ").drop 1)
-    (if obs == exp then "=" else "model: " ++ exp, if obs.startsWith "back=same" then "=" else "KEY-IDENTIFIER-DOES-NOT-DECODE-BACK", "")
+    let w := obs.splitOn " "
+    let good := w.contains "back=same" && (w.contains "jwk=same" || w.contains "jwk=na") && !w.contains "fp=differs"
+    (if obs == exp then "=" else "model: " ++ exp, if good then "=" else "KEY-IDENTIFIER-DOES-NOT-DECODE-BACK", "")
   | kind :: flags :: rest =>
     let inS := "|".intercalate rest
     match impl.splitOn "|" with
